@@ -462,7 +462,7 @@ Definition h_blob (mtu : Z) (vs : list view) (op h off : Z) : bytes :=
       | RErr c => err_rsp op h c
       | ROk v =>
           if len v <? off then err_rsp op h E_INVALID_OFFSET
-          else if len v <=? mtu - 1 then err_rsp op h E_NOT_LONG
+          else if (off =? 0) && (len v <=? mtu - 1) then err_rsp op h E_NOT_LONG   (* only at offset 0 (D12f) *)
           else [OP_BLOB_RSP] ++ take (Z.min (mtu - 1) (len v - off)) (drop off v)
       end
   end.
@@ -895,6 +895,38 @@ Fixpoint mrun (m : msrv) (ops : list (nat * op)) : option (msrv * list (nat * li
 Definition minit (db : list attr) (max_mtu : Z) (bs : list bearer) : msrv :=
   mkM db max_mtu (map (fun b => mkBst b [] false []) bs).
 
+(* An enhanced bearer closes while the ACL link stays up (register_eatt hooks
+   Server.on_disconnection(channel) on the channel's EVENT_CLOSE): on_disconnection pops the
+   entries of THAT bearer from subscribers / indication_semaphores / pending_confirmations --
+   bearer i's record is reset, nothing else is touched. *)
+Definition mclose (m : msrv) (i : nat) : msrv :=
+  match nth_error (m_bs m) i with
+  | None => m
+  | Some x => mkM (m_db m) (m_max_mtu m) (set_nth i (mkBst (bs_b x) [] false []) (m_bs m))
+  end.
+
+Inductive mop := MOn (i : nat) (o : op) | MClose (i : nat).
+
+Definition mstep2 (m : msrv) (x : mop) : option (msrv * nat * list bytes) :=
+  match x with
+  | MOn i o => match mstep m i o with None => None | Some (n, out) => Some (n, i, out) end
+  | MClose i => Some (mclose m i, i, [])
+  end.
+
+Fixpoint mrun2 (m : msrv) (ops : list mop) : option (msrv * list (nat * list bytes)) :=
+  match ops with
+  | [] => Some (m, [])
+  | x :: ops' =>
+      match mstep2 m x with
+      | None => None
+      | Some (m1, i, out) =>
+          match mrun2 m1 ops' with
+          | None => None
+          | Some (m2, outs) => Some (m2, (i, out) :: outs)
+          end
+      end
+  end.
+
 (* what was sent to bearer i over a history *)
 Definition outs_of (i : nat) (outs : list (nat * list bytes)) : list (list bytes) :=
   map snd (filter (fun x => Nat.eqb (fst x) i) outs).
@@ -935,6 +967,19 @@ Fixpoint mind_ok (pend : list bool) (ops : list (nat * op)) (outs : list (nat * 
       | None => false
       | Some p' => mind_ok (set_nth i p' pend) ops' outs'
       end
+  | _, _ => true
+  end.
+
+(* [mind_ok] with closes: the close of bearer i clears bearer i's flag only *)
+Fixpoint mind_ok2 (pend : list bool) (ops : list mop) (outs : list (nat * list bytes)) : bool :=
+  match ops, outs with
+  | MOn i o :: ops', (_, out) :: outs' =>
+      match sent_ok (if is_confirm o then false else nth i pend false) out with
+      | None => false
+      | Some p' => mind_ok2 (set_nth i p' pend) ops' outs'
+      end
+  | MClose i :: ops', (_, out) :: outs' =>
+      match out with [] => mind_ok2 (set_nth i false pend) ops' outs' | _ => false end
   | _, _ => true
   end.
 
@@ -1074,3 +1119,5 @@ Definition final_values_m (r : option (msrv * list (nat * list bytes))) : list (
   match r with None => [] | Some (m, _) => map (fun a => digest (a_value a)) (m_db m) end.
 Definition final_mtus (r : option (msrv * list (nat * list bytes))) : list Z :=
   match r with None => [] | Some (m, _) => map (fun x => b_mtu (bs_b x)) (m_bs m) end.
+
+Definition opt_out_m2 := opt_out_m.
